@@ -203,7 +203,20 @@ def check_all(ctx, facts):
             else:
                 src = prov.of_operand(name_fn, name_op)
                 tn = [v for o in src for v in o.via if v[0] == "call" and v[1].endswith("::type_name_of")]
+                if not tn:
+                    # the macro's nested helper does more than return the type name (it also slices the suffix off): look through it
+                    from .core import inline_calls
+                    host = name_fn.path
+                    view = inline_calls(facts, name_fn, lambda g: g.path.startswith(host + "::") and g.kind != "Closure" and not g.path.endswith("::f"), depth=2)
+                    if view is not name_fn:
+                        name_fn = view
+                        from .core import Prov as _Prov
+                        prov = _Prov(facts)            # (results are memoised per function path: the view needs its own table)
+                        src = prov.of_operand(name_fn, name_op)
                 std_tn = [v for o in src for v in o.via if v[0] == "call" and re.search(r"core::any::type_name(_of_val)?$", v[1])]
+                if not tn and not std_tn and any(o.kind == "call" and re.search(r"core::any::type_name$", str(o.key)) for o in src):
+                    # type_name::<F>() takes no argument: the call is the origin itself
+                    std_tn = [("call", name_fn.term(b)["callee"], b) for b in name_fn.calls_re(r"core::any::type_name$", cleanup=False)][:1]
                 ok = False
                 detail = "name does not come from func_path!()"
                 parent, f_ok, fdesc = None, False, None
@@ -230,7 +243,7 @@ def check_all(ctx, facts):
                     by_len = any(o.kind == "const" and str(o.key) == '"::f"' and any(v[0] == "call" and v[1].endswith("::len") for v in o.via) and
                                  any(v[0] == "binop" and v[1] in ("SubWithOverflow", "Sub") for v in o.via) for o in rng)
                     sliced = any(v[0] == "call" and re.search(r"Index(<.*>)?( for str)?>?::index$", v[1]) for o in src for v in o.via) and (by_three or by_len)
-                    ok = f_ok and sliced and parent == name_fn.path
+                    ok = f_ok and sliced and parent == re.sub(r"#\d+$", "", name_fn.path)
                     detail = "type name of %s in %s, `::f` suffix sliced off: %s" % (fdesc, parent, sliced)
                 ctx.check(ok, "R4", tp, tf.span,
                           "the default name is func_path!() evaluated in the function that opens the span (for an async fn: its async body, "
